@@ -313,6 +313,12 @@ def r10_6(ctx: Ctx):
     for n in ast.walk(loops[0]):
         if isinstance(n, ast.Assign) and len(n.targets) == 1 and isinstance(n.targets[0], ast.Name):
             defs.setdefault(n.targets[0].id, []).append(n.value)
+    # loop-invariant locals computed before the loop
+    for n in f.node.body:
+        if n is loops[0]:
+            break
+        if isinstance(n, ast.Assign) and len(n.targets) == 1 and isinstance(n.targets[0], ast.Name) and n.targets[0].id not in defs:
+            defs[n.targets[0].id] = [n.value]
     stores = [n for n in ast.walk(loops[0]) if isinstance(n, ast.Assign) and isinstance(n.targets[0], ast.Attribute) and n.targets[0].attr == "individuals"]
     if len(stores) != 1:
         return [ctx.ob("R10.6", f, loops[0], status=INCONCLUSIVE, detail="store not found", construct="store")]
@@ -395,6 +401,11 @@ def r10_6(ctx: Ctx):
                     st_s = VIOLATION  # some existing seeds are left out of the comparison
             elif isinstance(e, ast.ListComp) and len(e.generators) == 1 and canon(e.generators[0].iter) == f"{d}.children":
                 st_s = VIOLATION  # only the parent's own children
+            elif isinstance(e, ast.ListComp) and len(e.generators) == 3 and all(isinstance(g.target, ast.Name) for g in e.generators):
+                g0, g1, g2 = e.generators
+                whole = re.fullmatch(re.escape(f"{tree_p}.") + r"_?levels(\[[^\]]*:[^\]]*\])?", canon(g0.iter, defs)) is not None
+                if whole and canon(g1.iter) == g0.target.id and canon(g2.iter) == f"{g1.target.id}.children" and canon(e.elt) in (f"{g2.target.id}._sprout_seed.genome", f"{g2.target.id}.sprout_seed.genome") and not any(isinstance(x, ast.Name) and x.id == d for x in ast.walk(e)):
+                    st_s = VIOLATION  # the seeds of EVERY level: a candidate equal to a seed of another level is rejected
         obs.append(ctx.ob("R10.6", f, sd[0] if sd else stores[0], status=st_s, detail="seed rows = seeds of every child of every deme on the parent's level" if st_s == OK else f"SkipSameSprout compares with `{norm(sd[0])[:90] if sd else '?'}`, not with the seeds of all existing demes of the target level", construct="seed-rows"))
     # the early `continue` only for parents without children
     # normalised form: `if deme.children: <filter>` (an early `continue` for childless parents is inverted into this guard)
